@@ -75,7 +75,7 @@ def main(run: core.Run) -> None:
 
     drift = R.fingerprint_drift()
     run.coverage["fingerprint_drift"] = drift
-    n_models = run.size(3000, 12000)
+    n_models = run.size(2000, 12000)
     if drift and run.tier == "quick":
         n_models *= 3
     models = R.gen_stream(run, n_models, stats)
@@ -83,7 +83,7 @@ def main(run: core.Run) -> None:
 
     failures = []
     open_ids = {f["id"] for f in run.open_findings()}
-    n_val = run.size(1400, 5000)
+    n_val = run.size(900, 5000)
     for k, (m, meta) in enumerate(models[:n_val]):
         combos = [("optimize", R.OPTION_TUPLES[k % len(R.OPTION_TUPLES)]), ("fold_constants", R.OPTION_TUPLES[(k + 2) % len(R.OPTION_TUPLES)])]
         if k % 3 == 0:
